@@ -68,6 +68,21 @@ ax = grids.AxialGrid.fromNCells(7)
 check_grid("axial", ax, [(0, 0, k) for k in range(7)])
 trz = grids.ThetaRZGrid(bounds=(np.linspace(0, 2 * math.pi, 7), np.array([0.0, 1.5, 2.0, 7.25]), np.array([0.0, 10.0, 25.0])))
 check_grid("thetarz", trz, [(i, j, k) for i in range(6) for j in range(3) for k in range(2)])
+# grids that are NOT at the origin / not uniformly spaced (assumption review: every grid above has a zero offset apart from the
+# half-pitch Cartesian one, ascending uniform bounds, and hex cells at k >= 0): offsets with all three components,
+# irregular and non-monotone bounds, negative axial indices on step-defined axes
+M = 4
+small = [(i, j, k) for i in range(-M, M + 1) for j in range(-M, M + 1) for k in (-1, 0, 2)]
+for cu in (False, True):
+    us = grids.HexGrid._getRawUnitSteps(3.7, cu)
+    check_grid("hex-%s-offset" % ("corners" if cu else "flats"),
+               grids.HexGrid(unitSteps=us, unitStepLimits=((-2, 3), (-2, 3), (0, 1)), offset=(0.3, -1.2, 5.0), symmetry="full"), small)
+check_grid("cart-anyoffset", grids.CartesianGrid(unitSteps=((1.26, 0.0, 0.0), (0.0, 2.5, 0.0), (0, 0, 0)), unitStepLimits=((-2, 3), (-2, 3), (0, 1)),
+                                                  offset=(0.7, -0.2, 3.0), symmetry="full"), small)
+check_grid("axial-irregular-offset", grids.AxialGrid(bounds=(None, None, np.array([-3.0, 0.0, 0.5, 0.5, 12.0, 11.0])), offset=(1.0, -2.0, 0.25)),
+           [(0, 0, k) for k in range(5)])
+check_grid("thetarz-offset", grids.ThetaRZGrid(bounds=(np.array([0.0, 0.5, 0.75, 3.0]), np.array([0.0, 1.5, 2.0]), np.array([-5.0, 10.0, 25.0])), offset=(0.25, 1.0, -2.0)),
+           [(i, j, k) for i in range(3) for j in range(2) for k in range(2)])
 # hex ring bookkeeping, exhaustively within N rings: positions of ring r are exactly the cells at distance r-1, each once
 for ring in range(1, N + 1):
     n = hexagon.numPositionsInRing(ring)
